@@ -11,7 +11,7 @@ TRUSTED_BASE = [
 ]
 
 NOT_APPLICABLE = []
-HOOK_COMMITS = []
+HOOK_COMMITS = ["cc1e0d5"]
 
 PROPS = {
     "C11": {
@@ -140,6 +140,24 @@ PROPS = {
         "explanation": "Theorems over the uploader model's listings (exactness w.r.t. the pending uploads / held parts, paging). Tie: "
                        "every page from the Go handlers vs the extracted model plus the walk oracle on the implementation's pages.",
         "assumptions": [],
+        "timeout": {"quick": 900, "thorough": 3000},
+    },
+    "C12": {
+        "title": "aws-chunked streaming uploads decode to the payload however they arrive",
+        "harness": "c12",
+        "model": "Model/Chunk.v cread (chunkedReader.Read state machine over a fragmenting inner reader), read_full/drain consumers, encode",
+        "rule": "decoder driven directly (verif-tagged export): payload lengths {0,1,2,15..17,100,600,4095..4097,32767..32769,65539 (+200000 "
+                "thorough)} x chunk-size patterns ({1},{2,3},{16},{100,1,7},{4096},{70000},{65536,1},{10^6}) x transport read schedules "
+                "(uncapped, one byte at a time, halves, seeded random, 1000-byte reads, mixed) x EOF with/without data x consumers "
+                "ReadAll(exact / short / long declared size) and copy loops with buffers 1,2,7,512,32768; truncated and malformed "
+                "framings; then PUT with the streaming framing on all six backends with the same fragmentations, GET after each, "
+                "declared decoded length off by one and negative. distinct_nontrivial = distinct (payload length, chunking, schedule, "
+                "consumer) with a non-empty payload.",
+        "explanation": "Theorem: for every payload, every chunking, every transport fragmentation and every consumer buffer schedule the "
+                       "modelled decoder returns exactly the payload. Tie: the real chunkedReader (driven directly and through PUT) vs "
+                       "the extracted state machine on the same streams and schedules; spec oracle: decoded bytes = payload, wrong "
+                       "declared length refused.",
+        "assumptions": ["chunk signatures are not verified by the decoder (by design); malformed = what the framing grammar can observe"],
         "timeout": {"quick": 900, "thorough": 3000},
     },
 }
